@@ -1,0 +1,31 @@
+//go:build verif
+
+package passiveauth
+
+// Contracts for gvc (contract-based deductive verification, see /verif/DESIGN.md).
+// Comment-only file, compiled only under the build tag "verif".
+//
+// C01, hash layer: passive authentication succeeds only if every data group the document holds (1, 2, 7, 11..16)
+// has an entry in the signed hash list of the security object and that entry equals the digest of the group's raw
+// bytes under the security object's hash algorithm (digestOf is the ghost name of the digest (*Document).DgHash is
+// proved to compute: H(alg, raw bytes)).
+//@ pred dgOK(doc Document, d int) { dgPresentV(doc, d) ==> len(sodHashOf(ref(doc.Mf.Lds1.Sod.LdsSecurityObject), d)) > 0
+//@        && dgDigestV(doc, d) === sodHashOf(ref(doc.Mf.Lds1.Sod.LdsSecurityObject), d) }
+
+//@ func validateDgHashes
+//@   props C01 C12
+//@   requires doc.Mf.Lds1.Sod != nil && doc.Mf.Lds1.Sod.LdsSecurityObject != nil
+//@   ensures "every-present-group-matches-its-signed-entry": result == nil ==> dgOK(doc, 1) && dgOK(doc, 2) && dgOK(doc, 7) && dgOK(doc, 11) && dgOK(doc, 12)
+//@        && dgOK(doc, 13) && dgOK(doc, 14) && dgOK(doc, 15) && dgOK(doc, 16)
+//@   loop 1 invariant "stored-digests-are-allocated": forall d :: mapdom(dgHashes, d) ==> allocated(mapval(dgHashes, d))
+//@   loop 1 invariant "checked-1": mapseen(1, 1) ==> len(sodHashOf(ref(doc.Mf.Lds1.Sod.LdsSecurityObject), 1)) > 0 && mapval(dgHashes, 1) === sodHashOf(ref(doc.Mf.Lds1.Sod.LdsSecurityObject), 1)
+//@   loop 1 invariant "checked-2": mapseen(1, 2) ==> len(sodHashOf(ref(doc.Mf.Lds1.Sod.LdsSecurityObject), 2)) > 0 && mapval(dgHashes, 2) === sodHashOf(ref(doc.Mf.Lds1.Sod.LdsSecurityObject), 2)
+//@   loop 1 invariant "checked-7": mapseen(1, 7) ==> len(sodHashOf(ref(doc.Mf.Lds1.Sod.LdsSecurityObject), 7)) > 0 && mapval(dgHashes, 7) === sodHashOf(ref(doc.Mf.Lds1.Sod.LdsSecurityObject), 7)
+//@   loop 1 invariant "checked-11": mapseen(1, 11) ==> len(sodHashOf(ref(doc.Mf.Lds1.Sod.LdsSecurityObject), 11)) > 0 && mapval(dgHashes, 11) === sodHashOf(ref(doc.Mf.Lds1.Sod.LdsSecurityObject), 11)
+//@   loop 1 invariant "checked-12": mapseen(1, 12) ==> len(sodHashOf(ref(doc.Mf.Lds1.Sod.LdsSecurityObject), 12)) > 0 && mapval(dgHashes, 12) === sodHashOf(ref(doc.Mf.Lds1.Sod.LdsSecurityObject), 12)
+//@   loop 1 invariant "checked-13": mapseen(1, 13) ==> len(sodHashOf(ref(doc.Mf.Lds1.Sod.LdsSecurityObject), 13)) > 0 && mapval(dgHashes, 13) === sodHashOf(ref(doc.Mf.Lds1.Sod.LdsSecurityObject), 13)
+//@   loop 1 invariant "checked-14": mapseen(1, 14) ==> len(sodHashOf(ref(doc.Mf.Lds1.Sod.LdsSecurityObject), 14)) > 0 && mapval(dgHashes, 14) === sodHashOf(ref(doc.Mf.Lds1.Sod.LdsSecurityObject), 14)
+//@   loop 1 invariant "checked-15": mapseen(1, 15) ==> len(sodHashOf(ref(doc.Mf.Lds1.Sod.LdsSecurityObject), 15)) > 0 && mapval(dgHashes, 15) === sodHashOf(ref(doc.Mf.Lds1.Sod.LdsSecurityObject), 15)
+//@   loop 1 invariant "checked-16": mapseen(1, 16) ==> len(sodHashOf(ref(doc.Mf.Lds1.Sod.LdsSecurityObject), 16)) > 0 && mapval(dgHashes, 16) === sodHashOf(ref(doc.Mf.Lds1.Sod.LdsSecurityObject), 16)
+//@   assigns nothing
+//@   safety all
